@@ -713,3 +713,107 @@ func TestVerifC19EtagConfig(t *testing.T) {
 		return nil
 	})
 }
+
+// ---- part 5: what may enter the ETag cache, and under which key ----------------------------
+
+type errAfterReader struct {
+	data []byte
+	off  int
+}
+
+func (r *errAfterReader) Read(p []byte) (int, error) {
+	if r.off >= len(r.data) {
+		return 0, errors.New("read tcp: connection reset by peer")
+	}
+	n := copy(p, r.data[r.off:])
+	r.off += n
+	return n, nil
+}
+func (r *errAfterReader) Close() error { return nil }
+
+// TestVerifC19CacheEntries: the first call leaves (or must not leave) a cache entry; the second call shows
+// whether an entry is used. Entries belong to one parent (kind, namespace, name) and only come from answers
+// that were usable: a 200 whose body arrived completely.
+func TestVerifC19CacheEntries(t *testing.T) {
+	vs.RunExhaustive(t, "C19", 100_000, func(c *vs.Case) error {
+		first := c.PickStr("200-ok", "200-body-cut-off", "500-with-etag", "404-with-etag", "200-undecodable")
+		other := c.PickStr("same-parent", "other-kind", "other-namespace", "other-name")
+		secondCode := []int{304, 412, 200}[c.Int(3)]
+		strict := c.Bool()
+		c.Describe(func() any {
+			return map[string]any{"firstAnswer": first, "secondCallAbout": other, "secondCode": secondCode, "strict": strict, "etag": "enabled"}
+		})
+		good := `{"status":{"v":3},"children":[]}`
+		calls := 0
+		var inm []string
+		client := &scriptedClient{}
+		client.do = func(req *http.Request) (*http.Response, error) {
+			calls++
+			inm = append(inm, req.Header.Get(headerIfNoneMatch))
+			if calls == 1 {
+				switch first {
+				case "200-ok":
+					return httpResp(200, etagHdr(`"e1"`), good), nil
+				case "200-body-cut-off":
+					r := httpResp(200, etagHdr(`"e1"`), "")
+					r.Body = &errAfterReader{data: []byte(good[:12])}
+					return r, nil
+				case "500-with-etag":
+					return httpResp(500, etagHdr(`"e1"`), `{"error":"boom"}`), nil
+				case "404-with-etag":
+					return httpResp(404, etagHdr(`"e1"`), `{"kind":"Status","code":404}`), nil
+				default:
+					return httpResp(200, etagHdr(`"e1"`), `{"status":`), nil
+				}
+			}
+			if secondCode == 200 {
+				return httpResp(200, etagHdr(`"e2"`), `{"status":{"v":7},"children":[]}`), nil
+			}
+			return httpResp(secondCode, nil, ""), nil
+		}
+		ex := newC19Executor(client, true, time.Hour, strict)
+		p1 := c19Parent()
+		var r1 c19Resp
+		err1 := ex.Call(p1, &r1)
+		if (first == "200-ok") != (err1 == nil) {
+			return vs.Violf("C19/first-call-misjudged", "first answer %s: err=%v", first, err1)
+		}
+		p2 := c19Parent()
+		switch other {
+		case "other-kind":
+			p2.Parent.SetKind("CThing")
+		case "other-namespace":
+			p2.Parent.SetNamespace("ns2")
+		case "other-name":
+			p2.Parent.SetName("p2")
+		}
+		var r2 c19Resp
+		err2 := ex.Call(p2, &r2)
+		c.NonTrivial()
+		entryExpected := first == "200-ok" && other == "same-parent"
+		sent := inm[len(inm)-1]
+		// an undecodable 200 is cached before it is decoded (its body does belong to that ETag); replaying it fails again
+		entryAllowed := entryExpected || (first == "200-undecodable" && other == "same-parent")
+		if entryExpected && sent != `"e1"` {
+			return vs.Violf("C19/if-none-match-not-sent", "a usable answer with ETag e1 was cached for this parent, but the next request carried If-None-Match=%q", sent)
+		}
+		if !entryAllowed && sent != "" {
+			return vs.Violf("C19/if-none-match-unexpected", "first answer %s, second call about %s: nothing usable is cached for that parent, yet the request carried If-None-Match=%q", first, other, sent)
+		}
+		switch {
+		case secondCode == 200:
+			if err2 != nil || fmt.Sprint(r2.Status["v"]) != "7" {
+				return vs.Violf("C19/valid-answer-rejected", "second call answered 200 (v=7): err=%v status=%v", err2, r2.Status)
+			}
+		case entryExpected:
+			if err2 != nil || fmt.Sprint(r2.Status["v"]) != "3" {
+				return vs.Violf("C19/wrong-body-decoded", "HTTP %d after If-None-Match e1: want the cached body (v=3), got err=%v status=%v", secondCode, err2, r2.Status)
+			}
+		default:
+			if err2 == nil {
+				return vs.Violf("C19/bad-status-accepted", "first answer %s, second call about %s answered HTTP %d: there is no cached answer it could stand for, yet the call succeeded with %v", first, other, secondCode, r2.Status)
+			}
+		}
+		return nil
+	})
+}
